@@ -630,6 +630,19 @@ func (e *Exec) GenOp(r *rand.Rand, p Profile) []string {
 		if sid < 0 {
 			return e.GenOp(r, p)
 		}
+		if pct(r, 40) {
+			// Expects / ExpectsZeroOrN with the right count, one off, or zero; then what the value still
+			// denotes (a failed expectation makes every later use fail)
+			n := 0
+			if sr := e.spec.results[sid]; sr != nil {
+				n = len(sr.us)
+			}
+			n += []int{0, 0, 1, -1, -n}[r.Intn(5)]
+			if n < 0 {
+				n = 0
+			}
+			return []string{fmt.Sprintf("expects %d %d %d", sid, n, r.Intn(2)), fmt.Sprintf("len %d", sid), fmt.Sprintf("collect %d -1 0 1", sid)}
+		}
 		return []string{fmt.Sprintf("len %d", sid)}
 	case "collect":
 		sid := e.pickSid(r)
@@ -866,6 +879,13 @@ func (e *Exec) GenOp(r *rand.Rand, p Profile) []string {
 			return []string{fmt.Sprintf("%s %d", []string{"corrupt", "truncfile"}[r.Intn(2)], u)}
 		}
 	case "commit":
+		if u := e.pickLive(r); u != 0 && pct(r, 30) {
+			// single-object flush of an object holding the last accepted value
+			if f, ok := e.spec.live[u]; ok {
+				f.U = u
+				return []string{[]string{"flush1", "flush1c"}[r.Intn(2)] + " " + f.String()}
+			}
+		}
 		switch r.Intn(5) {
 		case 0:
 			return []string{"commit"}
